@@ -920,6 +920,28 @@ static const char* ak_name[] = {"load", "store", "xchg", "add", "sub", "and", "o
 static uint64_t atomic_core(AK k, uintptr_t a, int size, uint64_t v, uint64_t* expected, int mo, int fmo, bool* ok, void* pc) {
   VThread* me = tl_self;
   if (!g.in_child || !me || g.failing) return raw_atomic(k, a, size, v, expected, ok);
+  if (g.unjoined_others == 0) {
+    // the running thread is alone (every other thread is finished and joined): interleaving, views and
+    // happens-before are irrelevant; later threads are hb-after everything and start from the memory value
+    horizon_check(me);
+    me->vc.c[me->id]++;
+    me->vis.c[me->id] = me->vc.c[me->id];
+    lifetime_check(a, size, k != A_LOAD, true, pc);
+    if (k != A_LOAD) {
+      Gran* gr0 = gran_lookup(a & ~uintptr_t(7), false);
+      if (gr0 && gr0->has_loc) loc_reset_at(a);
+    }
+    uint64_t before = real_load(a, size);
+    uint64_t r = raw_atomic(k, a, size, v, expected, ok);
+    uint64_t after = real_load(a, size);
+    g.trace_hash = mix64(g.trace_hash, (a << 8) ^ r ^ after);
+    TRACE("  %6lu T%d %s%d %p %#lx -> %#lx (solo)\n", (unsigned long)g.steps, me->id, ak_name[k], size * 8, (void*)a, (unsigned long)before,
+          (unsigned long)after);
+    if (k == A_LOAD || after == before) after_observation(me, pc, a, before);
+    else
+      own_write(me, a);
+    return r;
+  }
   sched_point(me);
   lifetime_check(a, size, k != A_LOAD, true, pc);
   Gran* gr = race_access(a, size, k != A_LOAD, true, pc);
@@ -1334,7 +1356,7 @@ int sched_yield(void) {
   }
   return (int)syscall(SYS_sched_yield);
 }
-uint64_t xenium_verif_random() { return (uint64_t)xmc::choose_rand((int)xmc::opt("rand_domain", 2)); }
+uint64_t xenium_verif_random() { return (uint64_t)xmc::choose_rand(xmc::rand_domain()); }
 }
 
 // ------------------------------------------------------------------------------------------------
@@ -1355,6 +1377,9 @@ int choose_rand(int n) {
   return next_choice(K_RAND, n, CM_PREEMPT);
 }
 int self() { return tl_self ? tl_self->id : -1; }
+static int g_rand_domain = 1;
+void set_rand_domain(int n) { g_rand_domain = n < 1 ? 1 : n; }
+int rand_domain() { return g_rand_domain; }
 uint64_t steps() { return g.steps; }
 bool heap_reuse_mode() { return g_cfg.heap_reuse != 0; }
 bool hb_mode() { return g_cfg.mode == 1; }
@@ -1442,6 +1467,11 @@ void op_end(long r0, long r1) {
   me->nseen = 0;
 }
 int history_size() { return g_nhist; }
+void history_reset() {
+  for (int i = 0; i < g.nth; i++)
+    if (g.th[i].cur_ev >= 0) finishf(V_ENGINE, "ENGINE", "history_reset inside an operation");
+  g_nhist = 0;
+}
 const Event& history_at(int i) { return g_hist[i]; }
 bool precedes(const Event& a, const Event& b) {
   if (!a.done) return false;
